@@ -82,8 +82,11 @@ func (s *STUNConn) ReadFrom(payload []byte) (n int, addr net.Addr, err error) {
 	}
 
 	// Then read from the nextConn, appending to our buff
+	// A Read may return bytes together with an error (crypto/tls does when the
+	// peer's close_notify follows its last record): the bytes count, and the
+	// error comes back on the next Read.
 	n, err = s.nextConn.Read(payload)
-	if err != nil {
+	if n == 0 && err != nil {
 		return 0, nil, err
 	}
 
